@@ -45,6 +45,15 @@ pub enum X {
     Cust(String),
     /// Postgres enum cast: (type name, expr)
     AsEnum(String, Box<X>),
+    /// custom template with values: pieces are literal text or argument indices; the template string
+    /// is assembled for the target dialect's placeholder style (`?` or `$n`)
+    CustWith(Vec<TplPiece>, Vec<X>, bool),
+}
+
+#[derive(Clone, Debug, PartialEq)]
+pub enum TplPiece {
+    Text(String),
+    Arg(usize),
 }
 
 pub fn b(x: X) -> Box<X> {
@@ -237,6 +246,22 @@ impl X {
             X::Scalar(s) => SimpleExpr::SubQuery(None, Box::new(crate::apply::sel(s).into_sub_query_statement())),
             X::Cust(w) => Expr::cust(w.as_str()),
             X::AsEnum(t, e) => e.build().as_enum(Alias::new(t.as_str())),
+            X::CustWith(pieces, args, numbered) => {
+                let mut tpl = String::new();
+                for p in pieces {
+                    match p {
+                        TplPiece::Text(t) => tpl.push_str(t),
+                        TplPiece::Arg(i) => {
+                            if *numbered {
+                                tpl.push_str(&format!("${}", i + 1));
+                            } else {
+                                tpl.push('?');
+                            }
+                        }
+                    }
+                }
+                Expr::cust_with_exprs(tpl, args.iter().map(|a| a.build()).collect::<Vec<_>>())
+            }
         }
     }
 
@@ -307,7 +332,7 @@ impl X {
             X::QCol(t, c) => PX::Col(vec![t.clone(), c.clone()]),
             X::Star => PX::Col(vec!["*".into()]),
             X::Cust(w) => PX::Kw(w.clone()),
-            X::Val(_) | X::Exists(..) | X::InSub(..) | X::Scalar(_) | X::AsEnum(..) => {
+            X::Val(_) | X::Exists(..) | X::InSub(..) | X::Scalar(_) | X::AsEnum(..) | X::CustWith(..) => {
                 unimplemented!("statement-level nodes are compared through the reference renderer, not expected()")
             }
         }
@@ -328,6 +353,7 @@ impl X {
             X::Col(_) | X::Int(_) | X::Text(_) | X::Null | X::Bool(_) => vec![],
             X::QCol(..) | X::Val(_) | X::Star | X::Exists(..) | X::Scalar(_) | X::Cust(_) => vec![],
             X::InSub(e, _, _) | X::AsEnum(_, e) => vec![e],
+            X::CustWith(_, args, _) => args.iter().collect(),
             X::Not(e) | X::IsNull(e, _) | X::Cast(e, _) => vec![e],
             X::Bin(l, _, r) => vec![l, r],
             X::Between(e, _, lo, hi) => vec![e, lo, hi],
@@ -363,6 +389,7 @@ impl X {
             X::InSub(_, n, _) => if *n { "NOT IN(sub)" } else { "IN(sub)" }.into(),
             X::Scalar(_) => "(sub)".into(),
             X::AsEnum(..) => "AS ENUM".into(),
+            X::CustWith(..) => "custom".into(),
         }
     }
 }
